@@ -7,7 +7,7 @@ zzverif/pyhost, and writes a JSON list of {id, trace, exc}.  Import scenarios
 get their files written to a private temporary directory that is removed
 afterwards.  Nothing here draws randomness or reads a clock.
 """
-import sys, json, types, os, tempfile, shutil, builtins
+import sys, json, types, os, tempfile, shutil, builtins, importlib
 
 def canon(o, depth=0):
     if depth > 6:
@@ -92,6 +92,20 @@ def run_one(p):
     saved_modules = dict(sys.modules)
     saved_path = list(sys.path)
     saved_builtins = dict(builtins.__dict__)
+    state = {"root": None}
+    def libdir(name):
+        return os.path.join(state["root"] or ".", name)
+    def fs_add(rel):
+        src = (p.get("late_files") or {}).get(rel)
+        if src is None or state["root"] is None:
+            return
+        full = os.path.join(state["root"], rel)
+        os.makedirs(os.path.dirname(full), exist_ok=True)
+        with open(full, "w") as f:
+            f.write(src)
+        importlib.invalidate_caches()
+    simlog.libdir = libdir
+    simlog.fs_add = fs_add
     sys.modules["simlog"] = simlog
     root = None
     exc = ""
@@ -99,6 +113,7 @@ def run_one(p):
     try:
         if p.get("files"):
             root = tempfile.mkdtemp(prefix="verifref-")
+            state["root"] = root
             for rel, src in p["files"].items():
                 full = os.path.join(root, rel)
                 os.makedirs(os.path.dirname(full), exist_ok=True)
